@@ -205,6 +205,28 @@ def install_delays(seed):
     utils.Array = slow_array
 
 
+class Unpicklable:
+    """An argument that cannot be sent to a spawned process: Process.start() fails."""
+
+    def __reduce__(self):
+        import pickle
+
+        time.sleep(0.002)  # other threads get to run while the start is failing
+        raise pickle.PicklingError("not for export")
+
+
+def failing_start():
+    """A Process.start() that raises (spawn / forkserver cannot pickle the argument).
+    The process never comes to be; the terminal stays serialized all the same."""
+    p = multiprocessing.Process(target=child_main, args=(Unpicklable(),))
+    try:
+        p.start()
+    except Exception:
+        return True
+    p.join(5)
+    return False
+
+
 class RunProcess(multiprocessing.Process):
     """The other documented way to use multiprocessing.Process: a subclass overriding
     run() (instead of passing a target)."""
